@@ -423,6 +423,12 @@ class FieldFlow(object):
             return res
         res.problems = problems
         carried = set()
+        pairs = []
+        for p, a in mapping.items():
+            dst = cf.fields_of_param(p.lstrip('*'))
+            src = self.reads_of_expr(cls, a, selfname)
+            pairs.append((p, {base_field(x) for x in src}, {base_field(x) for x in dst}))
+        res.pairs = pairs
         for p, a in mapping.items():
             dst = cf.fields_of_param(p.lstrip('*'))
             src = self.reads_of_expr(cls, a, selfname)
@@ -813,6 +819,7 @@ class CopyResult(object):
         self.behaviour = set()
         self.carried = set()
         self.mismatches = []
+        self.pairs = []
         self.problems = []
         self.unmodelled = None
 
